@@ -142,7 +142,9 @@ def register(reg):
                  ("length", "length(result[0]) == x_range[2] and length(result[1]) == x_range[2]"),
                  ("grid", "forall(a, 0 <= a and a < x_range[2] and x_range[2] > 1, "
                   "result[0][a] == x_range[0] + real(a) * (x_range[1] - x_range[0]) / real(x_range[2] - 1))"),
-                 ("first_point", "result[0][0] == x_range[0]")])
+                 ("first_point", "result[0][0] == x_range[0]"),
+                 # the arrays handed out belong to the caller: allocated by THIS call, not shared with an earlier call or a module-level cache
+                 ("fresh_arrays", "not alloc0(result[0]) and not alloc0(result[1]) and not same(result[0], result[1])")])
     reg.contract(SA, "sample2d", PROP, sorts={"function2d": "ref:Function2D!", "x_range": RNG, "y_range": RNG},
         raises={"ValueError": "x_range[0] > x_range[1] or x_range[2] < 1 or y_range[0] > y_range[1] or y_range[2] < 1"},
         loops={0: dict(invariant=["0 <= i",
@@ -158,7 +160,8 @@ def register(reg):
                  ("grid_x", "forall(a, 0 <= a and a < x_range[2] and x_range[2] > 1, "
                   "result[0][a] == x_range[0] + real(a) * (x_range[1] - x_range[0]) / real(x_range[2] - 1))"),
                  ("grid_y", "forall(a, 0 <= a and a < y_range[2] and y_range[2] > 1, "
-                  "result[1][a] == y_range[0] + real(a) * (y_range[1] - y_range[0]) / real(y_range[2] - 1))")])
+                  "result[1][a] == y_range[0] + real(a) * (y_range[1] - y_range[0]) / real(y_range[2] - 1))"),
+                 ("fresh_arrays", "not alloc0(result[0]) and not alloc0(result[1]) and not alloc0(result[2]) and not same(result[0], result[1])")])
 
 
 BATTERY = {
@@ -287,3 +290,64 @@ print(json.dumps({"x": x1, "period": x2, "inner_argument": arg, "in_range": ok})
             return {'confirmed': True, 'input': {'x': x, 'period': x2}, 'observed': out,
                     'expected': 'inner argument in [0, period)'}
     return {'confirmed': False, 'input': {'x': x1, 'period': x2}, 'observed': last, 'expected': 'inner argument in [0, period)'}
+
+
+def bounded_sampler_histories(ctx):
+    """Bounded stand-in (NOT a proof) for the three samplers without a contract (sample3d, samplevector2d, samplevector3d) and for what no
+    single-call contract states: every call returns arrays of its own.  Histories: sample, modify every returned array in place (as a caller
+    converting units would), sample again with the same and with other ranges, ranges shared between axes; every result is compared with an
+    independent evaluation of the function on numpy.linspace grids."""
+    from replaylib.native import run_native
+    n = 6 if ctx['tier'] == 'quick' else 60
+    code = '''
+import random, numpy as np
+from cherab.core.math import sample1d, sample2d, sample3d, samplevector2d, samplevector3d
+from raysect.core.math import Vector3D
+rnd = random.Random(%d)
+bad = []; cases = 0
+f1 = lambda x: 2.0 * x + 1.0
+f2 = lambda x, y: x * x - 3.0 * y
+f3 = lambda x, y, z: x + 10.0 * y + 100.0 * z
+v2 = lambda x, y: Vector3D(x, y, x * y)
+v3 = lambda x, y, z: Vector3D(x + z, y, x * y * z)
+def grid(r): return np.linspace(r[0], r[1], r[2])
+def check(tag, got, ranges, fn, vec):
+    global cases
+    cases += 1
+    axes = [grid(r) for r in ranges]
+    for k, ax in enumerate(axes):
+        if got[k].shape != ax.shape or not np.array_equal(np.asarray(got[k]), ax):
+            bad.append({"sampler": tag, "axis": k, "expected_end_points": [float(ax[0]), float(ax[-1])], "got_end_points": [float(got[k][0]), float(got[k][-1])] if len(got[k]) else None}); return
+    for i in range(len(got)):
+        for j in range(i + 1, len(got)):
+            if np.shares_memory(np.asarray(got[i]), np.asarray(got[j])):
+                bad.append({"sampler": tag, "returned arrays share memory": [i, j]}); return
+    vals = np.asarray(got[len(axes)])
+    it = np.ndindex(*[len(a) for a in axes])
+    for idx in it:
+        pt = [float(a[i]) for a, i in zip(axes, idx)]
+        want = fn(*pt)
+        want = np.array([want.x, want.y, want.z]) if vec else want
+        if not np.allclose(vals[idx], want, rtol=1e-12, atol=0):
+            bad.append({"sampler": tag, "point": pt, "value": np.asarray(vals[idx]).tolist(), "function": np.asarray(want).tolist()}); return
+SAM = [("sample1d", sample1d, f1, 1, False), ("sample2d", sample2d, f2, 2, False), ("sample3d", sample3d, f3, 3, False),
+       ("samplevector2d", samplevector2d, v2, 2, True), ("samplevector3d", samplevector3d, v3, 3, True)]
+for trial in range(%d):
+    shared = (rnd.choice([0, 0.0, -1.5]), rnd.choice([1, 2.5, 4.0]), rnd.randint(2, 5))
+    for tag, fn, f, dim, vec in SAM:
+        for ranges in ([shared] * dim, [(rnd.uniform(-2, 0), rnd.uniform(1, 3), rnd.randint(1, 4)) for _ in range(dim)], [shared] * dim):
+            ranges = [tuple(r) for r in ranges]
+            got = fn(f, *ranges)
+            check(tag, got, ranges, f, vec)
+            for a in got:                      # the caller owns what it was given: in-place unit conversion, sorting, zeroing
+                np.asarray(a)[...] = np.asarray(a) * 100.0 + 7.0
+    if len(bad) > 6: break
+print(json.dumps({"cases": cases, "bad": bad[:6]}))
+''' % (ctx['seed'] + 13, n)
+    out = run_native(ctx, code, timeout=600)
+    return {'name': 'sampler call histories with in-place modification of the returned arrays, five samplers (BOUNDED stand-in, not counted as proved)',
+            'ok': bool(out) and out.get('bad') == [], 'detail': out,
+            'bound': '%d histories x 5 samplers x 3 calls, seed %d' % (n, ctx['seed'] + 13)}
+
+
+BOUNDED = list(globals().get('BOUNDED', [])) + [bounded_sampler_histories]
